@@ -24,12 +24,21 @@
     (policy_batch_no_dangling, pod_batch_no_dangling), an accepted policy batch is exact (policy_chains_exact),
     createIPSet is exact from every non-conflicting prior content (sync_sets_exact), and a whole Run on a node
     without GLX-owned state is accepted, exact and leaves all foreign state alone (sync_exact_partial_fresh).
-    The general sync_exact_partial (from every prior state outside the four shapes), idempotence and
-    events_converge are NOT proved: they are monitored on the implementation's dumps by the driver. *)
+    Restart (Proofs/PolicyRunP.v): from EVERY prior kernel that already holds galaxy state and satisfies
+    restart_pre = PolicySpec.partial_pre (consistent, none of the shapes K5 / K5b / K5c / K5d) && glx_shape
+    (the GLX-owned part looks like something galaxy wrote: see PolicyRunP.glx_shape), a whole Run is accepted,
+    exact and leaves foreign state alone (sync_exact_partial_restart), the next Run changes nothing
+    (sync_idem_restart), and the kernel it leaves is again consistent and galaxy-shaped (run_keeps_shape); kernels
+    without GLX state satisfy restart_pre (restart_pre_fresh).  Hence on every kernel written by galaxy's own
+    Runs [galaxy_written] the hypothesis is EXACTLY "none of the four recorded shapes" (sync_exact_partial_written).
+    partial_pre alone is NOT sufficient on arbitrary consistent kernels (sync_exact_partial_needs_shape: a hook
+    rule held twice, a GLX-POD rule pinning a stale set - states only a third party editing galaxy's chains makes).
+    NOT proved: events_converge (the event handlers are other code paths; states they leave are not covered by
+    galaxy_written) - monitored on the implementation's dumps by the driver. *)
 From Coq Require Import List Ascii String NArith Bool.
 From Galaxy.Base Require Import Strs.
 From Galaxy.Model Require Import Nets Netfilter Policy PolicySpec.
-From Galaxy.Proofs Require Import NetfilterP PolicySetsP PolicyPodsP PolicyP.
+From Galaxy.Proofs Require Import NetfilterP PolicySetsP PolicyPodsP PolicyP PolicyRunP.
 Import ListNotations.
 
 (** ---- refutations of the full statements *)
@@ -154,7 +163,7 @@ Print Assumptions sync_sets_exact.
     (syncNetworkPolices; syncNetworkPolicyRules; syncPods) is accepted (no batch or command refused), the
     GLX-owned state afterwards is EXACTLY compile / pod_chain_rules / hooks of the cluster, and everything not
     GLX-owned is as before (FORWARD / INPUT / OUTPUT gain at most the jumps to GLX-INGRESS / GLX-EGRESS).
-    Not covered: prior kernels that already hold GLX state (restart, events) - monitored by the driver *)
+    Prior kernels that already hold GLX state: sync_exact_partial_restart below *)
 Theorem sync_exact_partial_fresh : forall (H : str -> str) (host : str) (c : cluster) (k : kernel) (m : mgr),
   fresh k = true -> hash_distinct H host c = true -> conflicting_flags H c = false ->
   exists m' k', run H host c (m, k) = (m', k', true) /\
@@ -173,3 +182,88 @@ Example c15_nonvacuous_sets :
   NoDup (map cs_name [ex_cset]) /\ (forall cs, In cs [ex_cset] -> set_pre cs ex_sets) /\
   exists s', sync_sets [ex_cset] ex_sets = (s', true).
 Proof. exact c15_example_sets_l. Qed.
+
+(** ---- restart: prior kernels that already hold galaxy state *)
+
+(** sync_exact for EVERY prior kernel k (any GLX-owned and foreign content) with restart_pre H host c k = true, i.e.
+      partial_pre: kernel_consistent k; no GLX-PLCY chain the current policies do not have is still referenced (K5);
+        every GLX-POD chain and every GLX-INGRESS / GLX-EGRESS rule belongs to a pod that is on this node with
+        that address now (K5b); no element of a wanted set is present with the other nomatch flag (K5c); no rule
+        lists one address with both flags (K5d);
+      glx_shape: every "GLX..." chain is GLX-INGRESS, GLX-EGRESS, GLX-PLCY-* or GLX-POD-*; no rule outside the
+        GLX-PLCY chains names a GLX set; no GLX-POD rule jumps to a GLX-POD chain; GLX-INGRESS / GLX-EGRESS hold no
+        rule twice; no element of a GLX set contains a blank
+    and every hash that does not collide on the cluster's policy keys and this node's pod keys: the whole Run is
+    accepted, the GLX-owned state afterwards is exactly compile / pod_chain_rules / hooks of c - stale GLX sets
+    destroyed, stale GLX-PLCY chains deleted, set contents corrected, chains of pods no policy selects any more and
+    their hook rules removed - and everything not GLX-owned is as before *)
+Theorem sync_exact_partial_restart : forall (H : str -> str) (host : str) (c : cluster) (k : kernel) (m : mgr),
+  hash_distinct H host c = true -> restart_pre H host c k = true ->
+  exists m' k', run H host c (m, k) = (m', k', true) /\
+    glx_exact H host c k' = true /\ foreign_same k k' = true.
+Proof. exact run_restart_bool. Qed.
+Print Assumptions sync_exact_partial_restart.
+
+(** sync_idem under the same hypotheses: the Run after a Run is accepted and changes nothing (finite maps; pod
+    chains and hook chains up to rule order) *)
+Theorem sync_idem_restart : forall (H : str -> str) (host : str) (c : cluster) (k : kernel) (m m' : mgr) (k' : kernel),
+  hash_distinct H host c = true -> restart_pre H host c k = true ->
+  run H host c (m, k) = (m', k', true) ->
+  exists m'' k'', run H host c (m', k') = (m'', k'', true) /\ kernel_eqv k'' k' = true.
+Proof. exact run_idem_bool. Qed.
+Print Assumptions sync_idem_restart.
+
+(** who satisfies the hypothesis: every kernel without GLX state (for every cluster without K5d) ... *)
+Theorem restart_pre_fresh : forall (H : str -> str) (host : str) (c : cluster) (k : kernel),
+  fresh k = true -> conflicting_flags H c = false -> restart_pre H host c k = true.
+Proof. exact fresh_restart_pre. Qed.
+Print Assumptions restart_pre_fresh.
+
+(** ... and the cluster-independent part of it is kept by every such Run: the kernel it leaves is consistent and
+    galaxy-shaped, so for ANY later cluster c2 it satisfies restart_pre iff it shows none of the four shapes *)
+Theorem run_keeps_shape : forall (H : str -> str) (host : str) (c : cluster) (k : kernel) (m m' : mgr) (k' : kernel),
+  hash_distinct H host c = true -> restart_pre H host c k = true ->
+  run H host c (m, k) = (m', k', true) ->
+  kernel_consistent k' = true /\ glx_shape k' = true.
+Proof. exact run_keeps_wf. Qed.
+Print Assumptions run_keeps_shape.
+
+(** galaxy restarts (any number of times, any sequence of clusters): on a kernel written by galaxy's own Runs from
+    a node without GLX state [galaxy_written: closure of the fresh kernels under successful Runs from states
+    outside the four shapes], the ONLY hypothesis is partial_pre - none of the four recorded defect shapes: the
+    Run is accepted, exact, leaves foreign state alone, its result is again galaxy_written, and the next Run
+    changes nothing *)
+Theorem sync_exact_partial_written : forall (H : str -> str) (host : str) (c : cluster) (k : kernel) (m : mgr),
+  galaxy_written H host k -> hash_distinct H host c = true -> partial_pre H host c k = true ->
+  exists m' k', run H host c (m, k) = (m', k', true) /\
+    glx_exact H host c k' = true /\ foreign_same k k' = true /\ galaxy_written H host k' /\
+    exists m'' k'', run H host c (m', k') = (m'', k'', true) /\ kernel_eqv k'' k' = true.
+Proof. exact run_written. Qed.
+Print Assumptions sync_exact_partial_written.
+
+(** partial_pre alone does NOT suffice on arbitrary consistent kernels: (1) GLX-INGRESS holding pod web's hook
+    rule twice - consistent, none of the four shapes, and NO number of Runs reaches the exact state; (2) a
+    GLX-POD chain with a rule that names a GLX set no policy wants - the set survives the first Run (destroy
+    refused: still referenced) and the second Run changes the kernel again *)
+Theorem sync_exact_partial_needs_shape :
+  (let k := dup_hooks r_k in
+   partial_pre idH w_host w5_c0 k = true /\ hash_distinct idH w_host w5_c0 = true /\ glx_shape k = false /\
+   forall n, glx_exact idH w_host w5_c0 (kernel_after idH w_host w5_c0 (S n) k) = false) /\
+  (let k := pin_set r_k in
+   partial_pre idH w_host w5_c0 k = true /\ glx_shape k = false /\
+   glx_exact idH w_host w5_c0 (kernel_after idH w_host w5_c0 1 k) = false /\
+   kernel_eqv (kernel_after idH w_host w5_c0 2 k) (kernel_after idH w_host w5_c0 1 k) = false).
+Proof. exact partial_pre_insufficient_l. Qed.
+Print Assumptions sync_exact_partial_needs_shape.
+
+(** the restart hypothesis is met by a non-fresh kernel: what galaxy left for corpus cluster 0 (foreign chain, rule
+    and set; 3 GLX sets, policy and pod chains, hooks) restarted on a cluster with another local pod, another
+    remote pod and a second policy (6 compiled sets); and the four corpus defect cases FAIL it *)
+Example c15_nonvacuous_restart :
+  fresh r_k = false /\ restart_pre idH w_host r_c r_k = true /\ hash_distinct idH w_host r_c = true /\
+  List.length (all_sets (compile idH r_c)) = 6%nat /\
+  restart_pre idH w_host w5_c r_k = false /\
+  restart_pre idH w_host w5b_c (kernel_after idH w_host w5b_c0 1 w_k0) = false /\
+  restart_pre idH w_host w5c_c (kernel_after idH w_host w5b_c0 1 w_k0) = false /\
+  restart_pre idH w_host w5d_c w_k0 = false.
+Proof. exact restart_example_l. Qed.
